@@ -302,9 +302,12 @@ namespace ST
 
     template <typename type_T>
     ST_NODISCARD
-    formatter_ref_t make_formatter_ref(type_T value)
+    formatter_ref_t make_formatter_ref(const type_T &value)
     {
-        return [value](const ST::format_spec &format, ST::format_writer &output) {
+        // The arguments outlive apply_format(); referring to them (rather than
+        // moving or copying them into the closure) keeps an argument passed as
+        // an rvalue intact when the format string turns out to be malformed
+        return [&value](const ST::format_spec &format, ST::format_writer &output) {
             format_type(format, output, value);
         };
     }
